@@ -89,10 +89,10 @@ Definition valid_rune (v : N) : bool := (v <? 55296) || ((57343 <? v) && (v <=? 
 (* body = text between the quotes; fuel = its length + 1; acc is reversed *)
 Fixpoint unquote_body (fuel : nat) (l : bytes) (acc : bytes) : option bytes :=
   match fuel with
-  | O => match l with [] => Some (rev acc) | _ => None end
+  | O => match l with [] => Some (frev acc) | _ => None end
   | S f =>
     match l with
-    | [] => Some (rev acc)
+    | [] => Some (frev acc)
     | 10 :: _ => None
     | 34 :: _ => None                       (* unescaped quote inside: cannot come from the lexer *)
     | 92 :: r =>
@@ -135,8 +135,8 @@ Fixpoint unquote_body (fuel : nat) (l : bytes) (acc : bytes) : option bytes :=
 Definition unquote (tokval : bytes) : option bytes :=
   match tokval with
   | 34 :: r =>
-    match rev r with
-    | 34 :: body_rev => let body := rev body_rev in unquote_body (S (length body)) body []
+    match frev r with
+    | 34 :: body_rev => let body := frev body_rev in unquote_body (S (length body)) body []
     | _ => None
     end
   | _ => None
